@@ -865,3 +865,45 @@ fn dump_shifted_solutions(d: [f64; 3], ik: &Solutions) {
         println!("[{}]", row_str.trim_end()); // Trim trailing space for aesthetics
     }
 }
+
+/// Verification hooks: thin public wrappers over private items, compiled only with the
+/// `verif_hooks` feature. They add no behaviour.
+#[cfg(feature = "verif_hooks")]
+pub mod verif_hooks {
+    use super::*;
+
+    /// (DISTANCE_TOLERANCE, ANGULAR_TOLERANCE, SINGULARITY_ANGLE_THR)
+    pub fn constants() -> (f64, f64, f64) {
+        (DISTANCE_TOLERANCE, ANGULAR_TOLERANCE, SINGULARITY_ANGLE_THR)
+    }
+
+    pub fn normalize_near(now: f64, must_be_near: f64) -> f64 {
+        let mut n = now;
+        super::normalize_near(&mut n, must_be_near);
+        n
+    }
+
+    pub fn are_angles_close(angle1: f64, angle2: f64) -> bool {
+        super::are_angles_close(angle1, angle2)
+    }
+
+    pub fn is_close_to_multiple_of_pi(joint_value: f64, threshold: f64) -> bool {
+        super::is_close_to_multiple_of_pi(joint_value, threshold)
+    }
+
+    pub fn calculate_distance(joint1: &Joints, joint2: &Joints) -> f64 {
+        super::calculate_distance(joint1, joint2)
+    }
+
+    pub fn compare_poses(ta: &Pose, tb: &Pose, distance_tolerance: f64, angular_tolerance: f64) -> bool {
+        super::compare_poses(ta, tb, distance_tolerance, angular_tolerance)
+    }
+
+    pub fn inverse_intern(robot: &OPWKinematics, pose: &Pose) -> Solutions {
+        robot.inverse_intern(pose)
+    }
+
+    pub fn inverse_intern_5_dof(robot: &OPWKinematics, pose: &Pose, j6: f64) -> Solutions {
+        robot.inverse_intern_5_dof(pose, j6)
+    }
+}
